@@ -42,11 +42,12 @@ def contracts_of(prop):
 
 
 # ---------------------------------------------------------------------------------------------------
-def run_rt(mods, items, timeout=600, cwd=None, env_extra=None):
+def run_rt(mods, items, timeout=600, cwd=None, env_extra=None, custom=(), seed=0, tier="quick"):
     """items: [{key, inputs:[{param: encoded}]}] -> list of result dicts"""
-    if not items:
+    if not items and not custom:
         return []
-    job = {"repo": REPO, "verif": VERIF, "modules": mods, "items": items, "cwd": cwd}
+    job = {"repo": REPO, "verif": VERIF, "modules": mods, "items": items, "cwd": cwd, "custom": list(custom),
+           "seed": seed, "tier": tier}
     with tempfile.NamedTemporaryFile("w", suffix=".json", delete=False, dir=scratch()) as f:
         json.dump(job, f)
         path = f.name
@@ -293,6 +294,20 @@ def run(prop, tier, seed, rep):
         if r["verdict"] == "violation":
             rt_viol.setdefault(r["key"], []).append(r)
     for key in sorted(set(by_fn) | set(rt_viol)):
+        if key.startswith("custom:"):
+            w = rt_viol[key][0]
+            kf = [f for f in findings if f.get("function") == key and f.get("status", "open") == "open"]
+            listed = [f for f in kf if all(any(f["case"] in json.dumps(v.get("input", "")) + v.get("clause", "") for f in kf) for v in rt_viol[key])]
+            if kf and listed:
+                for f in kf:
+                    print("KNOWN-FINDING: property=%s %s" % (prop, f["what"]))
+                    rep.known.append(f["what"])
+                continue
+            path = write_replay(prop, key, key.replace("custom:", "bounded_"), [], w)
+            rep.violations.append({"function": key, "obligations": [], "replay": path, "failing_input_found": True})
+            print("VIOLATION property=%s replay=%s" % (prop, path))
+            code = 1
+            continue
         c = registry.CONTRACTS[key]
         fvcs = by_fn.get(key, [])
         witness = None
@@ -381,8 +396,10 @@ def crosscheck(prop, mods, rep, seed, n):
             continue
         ins = gen.inputs_for(c, seed, n)
         items.append({"key": key, "inputs": [{k: enc(v) for k, v in a.items()} for a in ins]})
+    from contracts import PROPS
+    custom = PROPS[prop].get("runtime_checks", [])
     try:
-        res = run_rt(mods, items, timeout=1200)
+        res = run_rt(mods, items, timeout=2400, custom=custom, seed=seed, tier=rep.tier)
     except Exception as ex:
         rep.broken.append("cross-check harness failed: %s" % str(ex)[-500:])
         return []
@@ -394,6 +411,8 @@ def crosscheck(prop, mods, rep, seed, n):
             per[r["key"]] = per.get(r["key"], 0) + 1
         elif r["verdict"] in ("precondition_false", "precondition_error"):
             rep.crosscheck["precondition_false"] += 1
+        elif r["verdict"] == "custom_ok":
+            rep.bounded.append({"check": r["key"], "cases": r["cases"], "bound": r["bound"], "violations": r["nviol"]})
         elif r["verdict"] == "harness_error":
             rep.crosscheck.setdefault("harness_errors", []).append({"key": r["key"], "error": r.get("error", "")[-300:]})
     rep.crosscheck["executed_per_function"] = per
@@ -546,8 +565,9 @@ def write_evidence(rep, code):
     }
     if expl:
         ev["coverage"]["explanation"] = expl
-    os.makedirs(os.path.join(VERIF, "evidence"), exist_ok=True)
-    json.dump(ev, open(os.path.join(VERIF, "evidence", rep.prop + ".json"), "w"), indent=1, default=str)
+    evdir = os.environ.get("PYVC_EVIDENCE_DIR") or os.path.join(VERIF, "evidence")
+    os.makedirs(evdir, exist_ok=True)
+    json.dump(ev, open(os.path.join(evdir, rep.prop + ".json"), "w"), indent=1, default=str)
 
 
 if __name__ == "__main__":
